@@ -18,6 +18,7 @@ package rprop
 
 /* -------------------------------------------------------------------------- */
 
+import "github.com/pbenner/autodiff/verifhook"
 import   "fmt"
 import   "math"
 
@@ -64,6 +65,7 @@ func rprop_dense_with_gradient(evalGradient DenseGradientF, x0 DenseFloat64Vecto
     return x1, fmt.Errorf("invalid initial value: %v", x1)
   }
   for i := 0; i < maxIterations.Value; i++ {
+    verifhook.Tick("rprop.iter")
     for i := 0; i < x1.Dim(); i++ {
       gradient_old[i] = gradient_new[i]
     }
@@ -72,6 +74,7 @@ func rprop_dense_with_gradient(evalGradient DenseGradientF, x0 DenseFloat64Vecto
       break;
     }
     for {
+      verifhook.Tick("rprop.backtrack")
       // update x
       for i := 0; i < x1.Dim(); i++ {
         if gradient_new[i] != 0.0 {
